@@ -145,6 +145,10 @@ fn contexts(h: &str, depth: usize) -> Vec<String> {
                 format!("({x}){{1}}"),
                 format!("({x}){{0,1}}"),
                 format!("({x}){{0,}}"),
+                format!("({x}){{0,0}}"),
+                format!("({x}){{1,1}}"),
+                format!("({x}){{2,2}}"),
+                format!("({x}){{0,2}}"),
                 format!("({x}){{2}}"),
                 format!("({x}){{1,2}}"),
                 format!("({x}){{2,}}"),
@@ -176,7 +180,24 @@ fn in_slot(p: &str, slot: usize) -> Cfg {
         4 => m0[0].la = Some((true, p.to_string())),
         5 => m0[1].la = Some((false, p.to_string())),
         6 => m1[0].la = Some((false, p.to_string())),
-        _ => m1[1].la = Some((true, p.to_string())),
+        7 => m1[1].la = Some((true, p.to_string())),
+        // two patterns of one mode sharing a token type, both with a lookahead
+        8 | 9 => {
+            m0[0].tt = 5;
+            m0[1].tt = 5;
+            m0[0].la = Some((true, if slot == 8 { p.to_string() } else { "y".to_string() }));
+            m0[1].la = Some((false, if slot == 9 { p.to_string() } else { "x".to_string() }));
+        }
+        10 => {
+            // three patterns with one token type, the last one carries the construct as its lookahead
+            m1.push(CPat { pat: "z".into(), tt: 1, la: Some((true, p.to_string())) });
+            m1[1].la = Some((true, "x".to_string()));
+        }
+        _ => {
+            // the same token type in both modes, the construct in the second mode's pattern
+            m1[0].tt = 1;
+            m1[0].pat = p.to_string();
+        }
     }
     Cfg { modes: vec![CMode { name: "A".into(), pats: m0, transitions: vec![(1, 1)] }, CMode { name: "B".into(), pats: m1, transitions: vec![(0, 0)] }] }
 }
@@ -225,13 +246,13 @@ pub fn run(tier: Tier) -> ! {
         for h in list {
             for (ci, c) in contexts(h, depth).into_iter().enumerate() {
                 // all slots for shallow contexts, a rotating slot deeper down (still every context)
-                if ci < 20 {
-                    for slot in 0..8 {
+                if ci < 24 {
+                    for slot in 0..12 {
                         cases.push((c.clone(), ok, slot));
                     }
                 } else {
-                    cases.push((c.clone(), ok, ci % 8));
-                    cases.push((c, ok, (ci / 8) % 8));
+                    cases.push((c.clone(), ok, ci % 12));
+                    cases.push((c, ok, (ci / 12) % 12));
                 }
             }
         }
@@ -250,7 +271,7 @@ pub fn run(tier: Tier) -> ! {
     for a in accs {
         merge(&mut total, a);
     }
-    fams.push(json!({"family": format!("(b) {} unsupported/erroneous and {} supported constructs x every context of depth <= {depth} (19 wrappers per level) x slots (pattern 1/2 of mode 0/1, positive/negative lookahead of each)", bad.len(), good.len()), "cases": cases.len(), "exhaustive": true}));
+    fams.push(json!({"family": format!("(b) {} unsupported/erroneous and {} supported constructs x every context of depth <= {depth} (23 wrappers per level) x 12 slots (pattern 1/2 of mode 0/1, positive/negative lookahead of each, lookaheads of patterns sharing a token type, token types shared across modes)", bad.len(), good.len()), "cases": cases.len(), "exhaustive": true}));
 
     // (d) long patterns: literal runs of 1..4-byte characters of every length around typical
     // buffer / message-abbreviation sizes, with a construct planted at the start, the end or nested
@@ -272,7 +293,7 @@ pub fn run(tier: Tier) -> ! {
         let accs = par_for(cases.len(), 64, || Acc { samples: Samples::new(1), ..Default::default() }, |acc, i| {
             let (p, ok) = &cases[i];
             let expect = if *ok { classify(p) == Class::Supported } else { false };
-            for slot in [0usize, 3, 4, 7] {
+            for slot in [0usize, 3, 4, 7, 9, 10] {
                 judge(acc, &format!("long pattern ({} bytes) {}", p.len(), if expect { "supported" } else { "to be rejected" }), &in_slot(p, slot), expect, false, "long");
             }
             // a long mode name next to a rejected pattern
